@@ -707,6 +707,15 @@ def creation_cases(rnd, n, prefix="C"):
             dts = rnd.choice([None, d])
             fill = {"bool": "True", "utf8": "'ab'"}.get(b, rnd.choice(["3", "-2", "0"]) if b in ops.INTS and not b.startswith("u") else "3")
             dkw = "" if dts is None else f", dtype=ndx.{d}"
+            if f == "full" and dts is None and rnd.random() < 0.6:
+                # dtype inferred from the fill value alone; Python-equal fills of different types (True == 1 == 1.0) in a
+                # row: the inference must not depend on what was created before
+                A, B = rnd.choice([("1.0", "True"), ("True", "1.0"), ("0.0", "False"), ("False", "0.0"), ("1", "True"), ("True", "1"),
+                                   ("1", "1.0"), ("1.0", "1"), ("0", "False"), ("2.5", "2"), ("'ab'", "'ab'"), ("False", "0")])
+                meta["history"] = f"full({A}) then full({B})"
+                out.append({"id": cid, "inputs": {}, "meta": meta, "tol": [0, 0], "lazy_subsets": [{"names": []}],
+                            "impl": f"u_ = ndx.full({shp}, {A}); out = ndx.full({shp}, {B})", "oracle": f"out = np.full({shp}, {B})"})
+                continue
             if f == "full":
                 ndk = "" if dts is None or b == "utf8" else f", dtype={npd}"
                 orc = f"out = np.full({shp}, {fill}{ndk})"
